@@ -456,6 +456,10 @@ class GenericInterp(Interp):
                 return self.decide_neg(('cmp',) + key, neg)
             if op == '!' and len(vals) == 1:
                 return not self.truth(vals[0], n)
+            if op in ('*', '->') and len(vals) == 1:
+                return Opaque(('deref', vals[0]))
+            if op in ('+', '-') and len(vals) == 2:
+                return Opaque(('bin', op, vals[0], vals[1]))
             if op == '=' and len(n.c) == 2:
                 tgtn = unwrap(n.c[0])
                 if tgtn.k == 'ref' and tgtn.decl.get('lid') is not None:
